@@ -77,11 +77,16 @@ CLAIMED = {
              "only_valueError); every well-formed response (any HTTP/ version token, any status of at most 4300 digits, any single-token reason) and "
              "every well-formed request (any admissible ASCII path incl. ';', ':', '@', '%', arbitrary parameter bytes percent-encoded on the wire, "
              "header maps, any body) round-trips through render and parse (response_roundtrip, request_roundtrip); percent-decoding inverts "
-             "percent-encoding (unquote_quote); headers and parameters have dict semantics.",
-        note="CPython 3.12.1 built-ins (bytes.partition/split/rstrip/upper, UTF-8 and ASCII-ignore decoding, int(str) incl. Unicode digits from "
+             "percent-encoding (unquote_quote); headers and parameters have dict semantics. The source text of parse_raw_http is translated to "
+             "Lean on every run (untyped translator tools/py2leanu.py -> Gen/PyC2U.lean, urlsplit / parse_qsl as parameters instantiated with the "
+             "C16 sub-models) and proved equal to the model for every bytes argument (C16Gen.gen_parse_raw_http); the central theorems are restated "
+             "for the translated definition (gen_only_valueError, gen_malformed_rejected, gen_request_roundtrip, gen_response_roundtrip).",
+        technique="Lean 4 theorems about an executable model; model tied to the code by source-to-Lean translation (proved equal) and by a "
+                  "model/implementation correspondence check",
+        note="The untyped translator and its run-time library (Model/PyU.lean) are trusted and validated by the g-* and pyu streams. CPython 3.12.1 built-ins (bytes.partition/split/rstrip/upper, UTF-8 and ASCII-ignore decoding, int(str) incl. Unicode digits from "
              "generated tables and the 4300-digit limit, urllib.parse.urlsplit on bytes incl. netloc/IPv6 checks, parse_qsl, dict) are modelled and "
              "checked by exhaustive (all URI targets of length <=4 over a 15-letter alphabet) and random correspondence streams, not verified.",
-        design="§4 C16",
+        design="§4 C16, §12.3",
     ),
     "C02": dict(
         text="Lean 4 theorems over the model of iter_settings / settings_map / the four views: for every well-formed settings list and any trailing "
@@ -260,7 +265,10 @@ CLAIMED = {
              "xorencoded flag are as found, and its settings are the C02 decoding of that block (extract_settings, extract_planted). With no "
              "candidate the result is the Guardrails outcome, else ValueError, and no other exception occurs (extract_none, "
              "extract_only_valueError). The answer does not depend on buffer size, entry point or initial file position; in all-keys mode the chosen "
-             "key is least in the residual order (allkeys_any_order). Built on C15.needle_exact, C09's refinement and C02.parse_serialize.",
+             "key is least in the residual order (allkeys_any_order). Built on C15.needle_exact, C09's refinement and C02.parse_serialize. End-to-end "
+             "theorems with hypotheses about the payload bytes only (the three parameters discharged by the function the driver runs, "
+             "fromFileReal_instantiates / fromFileReal_eq_spec): extract_raw_end_to_end(_bytes), extract_xorencoded_end_to_end, "
+             "extract_none_end_to_end, extract_guardrails_end_to_end; fromFile_C08_factors ties C08's composition to the same function.",
         note="The XorEncoded detector answer (C09), the residual key order and the Guardrails fallback (C17) are parameters of the theorems; the one "
              "detector hypothesis (c + 8 <= file size) is proved for the executable detector used in the runs, which is proved to answer as "
              "C09.fromFileFull. Behaviour of iter_beacon_config_blocks after its first yield, the exact residual key order and CPython's Counter/sort "
